@@ -113,6 +113,14 @@ def check(run):
                  any(a[0] == "is_some" and a[2] and K.peel(a[1][0]) == ("param", 4, b.local_name(4)) for a in G.guard_atoms(b, ad[0].bb, prog)) and \
                  not b.can_reach(ad[0].bb, rm[0].bb)
         o.check(bool(ok), "LtHash::observe|remove-then-add", "observe removes the old value (if any), then adds the new one (if any), for the same key", b.span)
+        if len(rm) == 1 and len(ad) == 1:
+            # exactly: remove <=> old is Some ; add <=> new is Some  (an empty value is a value; nothing else may skip an update)
+            for c, pos, nm in ((rm[0], 3, "remove"), (ad[0], 4, "add")):
+                extra = D.extra_guards(prog, b, c.bb, [lambda a, pos=pos: a[0] in ("is_some", "variant") and K.peel(a[1][0]) == ("param", pos, b.local_name(pos))])
+                o.check(not extra, "LtHash::observe|%s|exactly-when-present" % nm, "%s_entry runs whenever that side is Some (no shortcut skips it: Some(empty) differs from None)" % nm, c.span,
+                        {"extra": G.atoms_show(extra)})
+                a1, a2 = b.operand_term(c.args[1]), b.operand_term(c.args[2])
+                o.check(K.is_arg(b, a1, 2) and K.mentions_arg(b, a2, pos) and not K.mentions_arg(b, a2, 7 - pos), "LtHash::observe|%s|args" % nm, "%s_entry(key, that side's value)" % nm, c.span)
     hb = prog.body(LT + "::hash_entry")
     if hb is not None:
         ha = [c for c in hb.calls() if c.name == A + "crypto::hash::hash_all"]
@@ -519,11 +527,13 @@ def ob_trie_arith(run, oid):
                         # window: (key[bit/8] << 8) | key.get(bit/8+1).map_or(0)
                         w = shr[2]
                         idxs = [x for x in mir.walk(w) if isinstance(x, tuple) and x and x[0] == "index"]
-                        gets = [x for x in mir.walk(w) if isinstance(x, tuple) and x and x[0] == "call" and x[1].rsplit("::", 1)[-1] == "get"]
-                        hi_ok = len(idxs) == 1 and is_byte(idxs[0][2], False) and any(
-                            (lambda b_: b_ is not None and K.const_eval(b_[3]) == 8 and idxs[0] in list(mir.walk(b_[2])))(_bin(x, "Shl")) for x in mir.walk(w) if isinstance(x, tuple) and x and x[0] == "bin")
-                        lo_ok = len(gets) == 1 and is_byte(gets[0][2][1], True) and not any(
-                            (lambda b_: b_ is not None and gets[0] in list(mir.walk(b_[2])))(_bin(x, "Shl")) for x in mir.walk(w) if isinstance(x, tuple) and x and x[0] == "bin")
+                        # the low byte may reach the window through a match / map_or: use provenance (flow-insensitive through locals)
+                        getc = [c for c in ca.calls() if c.name.rsplit("::", 1)[-1] == "get" and K.is_arg(ca, ca.operand_term(c.args[0]), 1)]
+                        pvw = ca.provenance(w, depth=8)
+                        shl8 = [x for x in mir.walk(w) if isinstance(x, tuple) and x and x[0] == "bin" and _bin(x, "Shl") is not None and K.const_eval(x[3]) == 8]
+                        hi_ok = len(idxs) == 1 and is_byte(idxs[0][2], False) and any(idxs[0] in list(mir.walk(x[2])) for x in shl8)
+                        lo_ok = (len(getc) == 1 and is_byte(ca.operand_term(getc[0].args[1]), True) and any(c.endswith("::get") for c in pvw["calls"])
+                                 and not any(any(c.endswith("::get") for c in ca.provenance(x[2], depth=8)["calls"]) for x in shl8))
                         o.check(ok_s, "chunk_at|shift", "shift = 16 - BITS_PER_LEVEL - (depth*BITS_PER_LEVEL) % 8", ca.span, det)
                         o.check(hi_ok, "chunk_at|high-byte", "window high byte = key[(depth*BITS_PER_LEVEL) / 8] << 8", ca.span)
                         o.check(lo_ok, "chunk_at|low-byte", "window low byte = key.get((depth*BITS_PER_LEVEL) / 8 + 1) or 0 (zero padding of the last chunk)", ca.span)
